@@ -109,7 +109,7 @@ class TokenParser(object):
         if self._next_ in ['"', "'"]:
             sequence = self._next_
         else:
-            sequence = "\\" + self._next_
+            sequence = "\\" + (self._next_ or "")
 
         self._next()
         self._next()
